@@ -95,6 +95,15 @@ public:
     std::vector<std::string> events;   // free-form event log of the harness (per path)
     std::map<unsigned, bool> decided;  // truth value of conditions already decided on this path
     unsigned seq = 0;                  // branch()/choose() invocations on this path
+    // work splitting: a path belongs to part hash(first split_depth decisions) % split_parts
+    unsigned split_parts = 1, split_part = 0, split_depth = 10;
+    void split_check()
+    {
+        if (split_parts <= 1 || trace.size() != split_depth) return;
+        std::uint64_t hsh = 1469598103934665603ull;
+        for (auto const& d : trace) { hsh ^= static_cast<std::uint64_t>(d.choice + 1); hsh *= 1099511628211ull; }
+        if (hsh % split_parts != split_part) throw abort_path{"other-part"};
+    }
     // every term that decides control flow is kept alive for the whole process: z3 re-uses the ids of
     // dead ASTs and its simplifier orders arguments by id, so keeping the terms alive makes the
     // replayed prefix of a path build exactly the same terms as the original run
@@ -240,6 +249,7 @@ public:
             trace.push_back(d);
             pc.push_back(side);
             remember(c, d.choice == 0);
+            split_check();
             return d.choice == 0;
         }
 
@@ -249,12 +259,14 @@ public:
             trace.push_back(dec{0, 2, false, false, seq});
             pc.push_back(c);
             remember(c, true);
+            split_check();
             return true;
         }
         // `c` is infeasible, so (the path condition being satisfiable) `!c` holds
         trace.push_back(dec{1, 2, true, false, seq});
         pc.push_back(!c);
         remember(c, false);
+        split_check();
         return false;
     }
 
@@ -288,6 +300,7 @@ public:
         }
         ++pos;
         user_choices.push_back(c);
+        split_check();
         return c;
     }
 
@@ -622,6 +635,21 @@ inline real sqrt(real const& a)
     unsigned id = a.e.id();
     auto it = g.memo_sqrt.find(id);
     if (it != g.memo_sqrt.end()) return real(g.memo[it->second]);
+    // sqrt(s*s) for an earlier root s (>= 0), e.g. the error of create_result(..., value, sqrt(v)):
+    // re-use s if the path condition entails a.e == s*s (short query; "don't know" just means a fresh root)
+    for (auto const& kv : g.memo_sqrt)
+    {
+        z3::expr const& sj = g.memo[kv.second];
+        unsigned const saved = g.timeout_ms;
+        g.timeout_ms = 3000;
+        z3::check_result r = g.check({a.e != sj * sj});
+        g.timeout_ms = saved;
+        if (r == z3::unsat)
+        {
+            g.memo_sqrt[id] = kv.second;
+            return real(sj);
+        }
+    }
     z3::expr s = g.fresh("sqrt");
     g.define(s >= 0);
     g.define(s * s == a.e);
